@@ -53,6 +53,9 @@ pub fn build(s: &LineScn, which: &str) -> WorldSys {
 			w.nodes[*i].persist.set_async_all(true);
 		}
 		(w, chans)
+	} else if s.name.contains("-deferred") {
+		// the crashing / stalling node (forwarder for C02, sender for C03) runs its ChainMonitor in deferred mode
+		crate::checks::c09::line_world_deferred(s.ct, s.nodes, &s.async_from_start, &s.crash_nodes)
 	} else {
 		line_world(s.ct, s.nodes, &s.async_from_start)
 	};
@@ -155,6 +158,25 @@ pub fn scenarios(tier: Tier, which: &str) -> Vec<LineScn> {
 				on_chain: false,
 				slow_user: vec![],
 			});
+			// deferred ChainMonitor on the forwarder (C02) / sender (C03): its background task (write the manager, then
+			// flush the queued monitor operations) stalls at any point, and the node crashes at any later point or
+			// between the manager write and a monitor write of one flush
+			if ct == Ct::Static && (th || pn == "claim") {
+				v.push(LineScn {
+					name: format!("{}-abc-{}-deferred-stall-crash", n, pn),
+					ct,
+					nodes: 3,
+					ops: vec![fwd_send(50_000_000, pol.clone())],
+					ops_first: true,
+					dev: Deviations { reorder: None, early_op: None, crash: Some(1), crash_inside: if th { Some(1) } else { None }, hold_manager: Some(1), complete_reorder: None, early_release: if th { Some(1) } else { None }, crash_choices_max: Some(2), ..Deviations::default() },
+					k: 2,
+					crash_nodes: if which == "C02" { vec![1] } else { vec![0] },
+					async_from_start: vec![],
+					max_disconnects: 0,
+					on_chain: true,
+					slow_user: vec![],
+				});
+			}
 			// forwarder (C02) / sender (C03) crashes at every point
 			if ct == Ct::Static {
 				v.push(LineScn {
